@@ -189,3 +189,16 @@ Qed.
    sequences practically never reach - are present verbatim *)
 Lemma tables_prng_facts : forallb snd Tables.prng_facts = true /\ (14 <= List.length Tables.prng_facts)%nat.
 Proof. split; [vm_compute; reflexivity|vm_compute; lia]. Qed.
+
+(* the cursors: from any state with both cursors in 0..55 (seeding: 0 and 21) every call indexes the
+   56-entry table at 1..55 - `seed_array[loc as usize]` cannot go out of bounds - and leaves them in 1..55 *)
+Definition CCur (s : crng) : Prop := 0 <= cnext s <= 55 /\ 0 <= cnextp s <= 55.
+Lemma ccursor_step : forall s, CCur s ->
+  1 <= cnext (snd (csample_int s)) <= 55 /\ 1 <= cnextp (snd (csample_int s)) <= 55 /\ CCur (snd (csample_int s)).
+Proof.
+  intros s (Hn & Hp); unfold csample_int, CCur; cbn [snd cnext cnextp].
+  destruct (56 <=? cnext s + 1) eqn:E1; [apply Z.leb_le in E1|apply Z.leb_gt in E1];
+    (destruct (56 <=? cnextp s + 1) eqn:E2; [apply Z.leb_le in E2|apply Z.leb_gt in E2]); lia.
+Qed.
+Lemma ccursor_new : forall seed, CCur (cnew seed).
+Proof. intros seed; unfold CCur, cnew; cbn [cnext cnextp]; lia. Qed.
